@@ -84,6 +84,10 @@ def skeleton(spec):
             continue
         kids = [k for k in r.children if not k.is_empty()]
         kind = "p" if isinstance(r.constructor, CartesianProduct) else "u"
+        if kind == "u" and len(kids) == 1 and not r.is_equivalence():
+            # a unary rule that is not an equivalence is a real node of the tree (the reference relation skips unary unions):
+            # encoded as a one-factor product, which the reference does not skip
+            kind = "p"
         rules[ci(c)] = f"{kind}:{','.join(str(ci(k)) for k in kids)}"
         todo += kids
     return ";".join(rules[i] for i in range(len(idx)))
